@@ -71,7 +71,7 @@ SPECS = {
    "`publish_complete` quantifies over arbitrary handler bodies, panicking ones included: the other handlers of the event still receive it.",
    [(F,"no_panic_escapes","no_panic_escapes"),(F,"callHandler_panic","panic_handler_exactly_once"),(F,"publish_complete","others_still_receive"),(F,"once_retired_after_run","panicking_once_stays_retired")]),
  "C08": ("Cancellation, context propagation and publish hooks behave predictably", "",
-   [(F,"dead_publish_inert","cancelled_before_no_handler"),(F,"cancelled_loop_inert","cancel_stops_dispatch"),(F,"publish_hooks","hooks_exactly_once_ordered"),(F,"publish_sound","ctx_and_value_propagate")]),
+   [(F,"dead_publish_inert","cancelled_before_no_handler"),(F,"cancelled_loop_inert","cancel_stops_dispatch"),(F,"filter_cancel_stops_dispatch","filter_cancel_stops_dispatch"),(F,"publish_hooks","hooks_exactly_once_ordered"),(F,"publish_sound","ctx_and_value_propagate")]),
  "C09": ("Every publish on a persistent bus is recorded once, before it is delivered", "",
    [(P,"applyOptions_spec","options_order_irrelevant"),(P,"applyOptions_perm","options_permutation"),(P,"persist_spec","one_record_per_publish"),(P,"publish_persists_first","recorded_before_delivery"),(P,"offsets_increasing","offsets_increasing")]),
  "C13": ("Persistence failures are contained, reported once and never corrupt the log", "",
@@ -304,6 +304,19 @@ theorem bus_offset_serialised : Ebu.Locks.CallbacksOk Ebu.Generated.callbackFact
 """),
 }
 EXTRAS2 = {
+ "C08": ("Ebu.Spec.Bus", """/-- non-vacuity of `filter_cancel_stops_dispatch`: two handlers on type 1, the first with an accepting filter that
+cancels the publish context; a publish with a fresh context evaluates the filter and enters nobody, whereas without
+the cancellation both handlers run -/
+example :
+    (run flatImpl { bodies := [[]] } 3 []
+      [.subscribe 1 0 false false false (some (1, 0)) 0 true, .subscribe 1 1 false false false none 0 false,
+       .publish 1 5 false .fresh]).c.trace = [.filt 0 0 5 true] ∧
+    (run flatImpl { bodies := [[]] } 3 []
+      [.subscribe 1 0 false false false (some (1, 0)) 0 false, .subscribe 1 1 false false false none 0 false,
+       .publish 1 5 false .fresh]).c.trace =
+      [.filt 0 0 5 true, .enter 1 0 1 5 none false, .exit 1 0, .enter 1 1 1 5 none false, .exit 1 1] := by
+  decide
+"""),
  "C10": ("Ebu.Generated.Consts", """/-- the model's memory-store offsets (`fmt20` = 20 zero-padded digits) are what the CURRENT source
 formats (`fmt.Sprintf` verb extracted from MemoryStore.Append on every run), the oldest-offset
 literal is the empty string, and the SQLite store formats and parses positions in base 10 / 64 bits -/
